@@ -860,6 +860,27 @@ func (c *specCtx) evalCall(n *ECall) Val {
 		}
 		// no such call on this path: an arbitrary value (clauses guard with callCount)
 		return VOpaque{Id: c.e.fresh("nocall", IntS)}
+	case "atomicLoad": // current value of an atomic variable given as a field expression
+		l, t, ok := c.lvalue(n.Args[0])
+		if !ok {
+			c.fail("atomicLoad needs a field expression")
+		}
+		cell, ct := atomicCell(l, t)
+		v := c.loadLoc(cell)
+		tn := ""
+		if nt, ok := t.(*types.Named); ok {
+			tn = nt.Obj().Name()
+		}
+		switch tn {
+		case "Time":
+			iv := v.(VIface)
+			tt := c.e.lookupTimeType()
+			return VTime{Ite(Eq(iv.Tag, Num(int64(c.e.typeTag(tt)))), iv.Data, Zero)}
+		case "Bool":
+			return VBool{Ne(v.(VInt).T, Zero)}
+		}
+		_ = ct
+		return v
 	case "isErr": // err is some non-nil error
 		return VBool{Ne(c.eval(n.Args[0]).(VErr).Id, Zero)}
 	}
